@@ -723,6 +723,11 @@ unsafe impl<B: BufMut> BufMut for ReadNBuf<B> {
         self.buf.has_spare_capacity()
     }
 
+    #[allow(private_interfaces)]
+    fn parts(&mut self) -> BufMutParts {
+        self.buf.parts()
+    }
+
     #[cfg(any(target_os = "android", target_os = "linux"))]
     unsafe fn buffer_init(&mut self, id: BufId, n: u32) {
         self.last_read = n as usize;
